@@ -371,6 +371,15 @@ pub(crate) fn burn_tag(input: &[u8], inposp: &mut usize) -> Result<(), Error> {
 
 pub(crate) fn burn_key_and_value(input: &[u8], inposp: &mut usize) -> Result<(), Error> {
     verify_char(input, b'"', inposp)?;
+    burn_key_and_value_after_quote(input, inposp)
+}
+
+// Like burn_key_and_value(), but starting on the character after the key's opening quote
+// (for callers that have already consumed it while looking for a known key).
+pub(crate) fn burn_key_and_value_after_quote(
+    input: &[u8],
+    inposp: &mut usize,
+) -> Result<(), Error> {
     burn_string(input, inposp)?;
     eat_colon_with_whitespace(input, inposp)?;
     burn_value(input, inposp)?;
